@@ -149,13 +149,19 @@ def run_property(prop: str, tier: str, seed: int, repo: Repo = None, write_evide
             replay_paths.append(rp)
             print(f"VIOLATION property={prop} replay={rp}")
     if selftest is not None:
-        out(f"  self-validation: {selftest['variants']} variants "
-            f"({selftest['breaking']} breaking, {selftest['preserving']} preserving), "
-            f"{selftest['failed']} failed")
+        out(f"  self-validation: {selftest['variants']} variants of the current source "
+            f"({selftest['breaking']} breaking caught, {selftest['preserving']} preserving silent, "
+            f"{selftest.get('inapplicable', 0)} inapplicable), {selftest['failed']} failed, {selftest.get('wall_s', 0)} s")
+        for r in selftest.get("results", []):
+            if r["status"] == "inapplicable":
+                out(f"      [inapplicable] {r['name']}: {r['detail']}")
+        if selftest.get("degraded_rules"):
+            out(f"  self-validation degraded (no applicable breaking variant): {', '.join(selftest['degraded_rules'])}")
         if selftest["failed"]:
-            for line in selftest["failures"]:
-                print("SELFTEST-FAIL " + line)
-            print(f"ANALYSIS-ERROR property={prop} checker self-validation failed")
+            for r in selftest["failures"]:
+                print(f"SELFTEST-FAIL rule={r['rule']} kind={r['kind']} {r['name']}: {r['detail'][:300]}")
+            print(f"ANALYSIS-ERROR property={prop} checker self-validation failed on the current tree "
+                  f"({selftest['failed']} variant(s)); the verdict of the affected rule(s) is not trustworthy")
             rc = 2 if rc == 0 else rc
 
     if write_evidence:
@@ -203,8 +209,15 @@ def write_evidence_file(prop, tier, seed, spec, results, violations, known_hits,
         "not_decided": spec.get("not_decided", []),
     }
     if selftest is not None:
-        cov["self_validation"] = {k: selftest[k] for k in ("variants", "breaking", "preserving", "failed")}
-        cov["self_validation"]["samples"] = selftest.get("samples", [])[:12]
+        cov["self_validation"] = {k: selftest.get(k) for k in ("variants", "breaking", "preserving", "inapplicable", "failed",
+                                                               "per_rule", "degraded_rules", "wall_s")}
+        cov["self_validation"]["what"] = (
+            "each variant is an in-memory edit of the CURRENT source of one function (ast.unparse text), re-parsed and "
+            "re-analysed by the one rule; 'break' variants re-introduce a specific violation and must be reported at that "
+            "function, 'keep' variants are behaviour-preserving rewrites and must stay silent; nothing is executed")
+        cov["self_validation"]["samples"] = [
+            {"rule": r["rule"], "kind": r["kind"], "variant": r["name"], "status": r["status"], "report": r["detail"][:200]}
+            for r in selftest.get("results", [])[:40]]
     ev = {
         "property_id": prop,
         "tier": tier,
